@@ -426,7 +426,7 @@ func C09Cases(c *Ctx, w *World, rng *rand.Rand, reached []int, nRandom int) []*H
 	add(&GenSpec{Plan: planIdentity()}, 0)
 	add(&GenSpec{Plan: planIdentity()}, 1) // repeat at another location
 	// every way of naming the working directory, systematically
-	for _, cw := range []string{"abs", "rel", "abs-slash", "symlink", "chdir-symlink", "symlink-rel"} {
+	for _, cw := range []string{"abs", "rel", "abs-slash", "symlink", "chdir-symlink", "symlink-rel", "dotdot-symlink"} {
 		add(&GenSpec{Plan: planIdentity(), Cwd: cw}, 0)
 	}
 	add(&GenSpec{Plan: planAll("reverse", 0, 0)}, 0)
